@@ -30,7 +30,7 @@ RULE = (
     "value or a parenthesis; distinct strings counted."
     % NSLICES
 )
-REQUIRED = ["accepted", "convexity-error", "syntax-error", "must-accept", "may-reject", "malformed:syntax-error", "equiv-checked"]
+REQUIRED = ["accepted", "convexity-error", "arith:accepted", "must-accept", "may-reject", "malformed:syntax-error", "equiv-checked"]
 
 # ------------------------------------------------------------------ trees
 V = ["x", "y", "z", "t"]
